@@ -25,8 +25,8 @@ ASSUMPTIONS = [
 ]
 
 
-QUICK_BUDGET = {"cases": 240, "deadline_s": 170, "case_timeout_s": 90, "floors": {"status_rows": 379, "filtered_views": 251, "previews_snapshotted": 420, "run_compared": 84}}
-THOROUGH_FACTOR = 36  # thorough = the same workload with 36x the cases (floors scale along)
+QUICK_BUDGET = {"cases": 480, "deadline_s": 170, "case_timeout_s": 90, "floors": {"status_rows": 758, "filtered_views": 502, "previews_snapshotted": 840, "run_compared": 168}}
+THOROUGH_FACTOR = 18  # thorough = the same workload with 18x the cases (floors scale along)
 
 
 def budget(tier):
